@@ -30,7 +30,7 @@ def x_obligations(tier):
         o.append(Obl(f"C14-frozen-cached[{pre!r}+{n}]", M, "frozen", env={"VF_OP": "3", "VF_PRE": pre, "VF_N": str(n), "VF_CACHES": "1"}, timeout=T, expect="find", family="C14-shared",
                      bound="same with spil's caches ON (cache keys are realised: bug-hunt only, exhaustion not expected)"))
     for pre, n in [("h/a/", 1), ("h/s/q1/v", 1)]:
-        o.append(Obl(f"C14-frozen-cached[op=4,{pre!r}+{n}]", M, "frozen", env={"VF_OP": "4", "VF_PRE": pre, "VF_N": str(n), "VF_CACHES": "1"}, timeout=90 if tier == "quick" else T, expect="find", family="C14-shared",
+        o.append(Obl(f"C14-frozen-cached[op=10,{pre!r}+{n}]", M, "frozen", env={"VF_OP": "10", "VF_PRE": pre, "VF_N": str(n), "VF_CACHES": "1"}, timeout=90 if tier == "quick" else T, expect="find", family="C14-shared",
                      bound="queries (also of optional values only) with spil's caches ON: later Sids of that string are what they were (bug-hunt)"))
     # a Sid that still carries a REFUSED query (it shares the base Sid's resolved fields when the caches are on) is not equal to the base Sid
     for pre, suf2 in [("h/a/", "?zz=1"), ("h/s/q1/v", "?q=zz")]:
